@@ -296,3 +296,32 @@ func returnsDerive(fn *ssa.Function, idx int, src func(ssa.Value) bool) (bad, go
 	}
 	return
 }
+
+// selectArms: start points at the entry of every select arm whose state
+// satisfies pred (the edge where the select's chosen index equals the arm).
+func (c *Ctx) selectArms(fn *ssa.Function, pred func(sel *ssa.Select, st *ssa.SelectState) bool, what string) []start {
+	var out []start
+	ir.Instrs(fn, func(in ssa.Instruction) {
+		sel, ok := in.(*ssa.Select)
+		if !ok {
+			return
+		}
+		for i, st := range sel.States {
+			if !pred(sel, st) {
+				continue
+			}
+			for _, r := range ir.Refs(sel) {
+				e, ok := r.(*ssa.Extract)
+				if !ok || e.Index != 0 {
+					continue
+				}
+				for _, ib := range ir.IntEqBranches(e) {
+					if ib.K == int64(i) {
+						out = append(out, atEdge(c, ib.Edge(), what+" at "+c.at(in)))
+					}
+				}
+			}
+		}
+	})
+	return out
+}
